@@ -49,7 +49,7 @@ def sm_cfg(c, out):
 
 
 COND_FIELDS = ["init", "kw", "op", "opctx", "ex", "len", "nesting", "cannest", "paren", "padded", "ronly", "isenc", "enc",
-               "err", "id", "cat", "valid", "str", "bits", "loglevels"]
+               "err", "id", "cat", "valid", "str", "bits", "loglevels", "eqsrc", "umsrc", "evsrc"]
 
 COND_DEFAULT = dict(machine="cond", KwArgs=["k", "", "stringer", "nil", "int"],
                     OpArgs=["Eq", "Ge", "op0", "user", "userB", "eqB", "emptytext", "emptyctx", "nil"],
